@@ -1,5 +1,6 @@
 (* Props/C07.v — property C07: @serial scenarios run in isolation. *)
-From CV Require Import Model.Base Model.Events Model.Sched Proofs.BaseP Proofs.SchedP Proofs.SchedP2.
+From CV Require Import Model.SchedSpec.
+From CV Require Import Model.Base Model.Events Model.Sched Proofs.BaseP Proofs.SchedP Proofs.SchedP2 Proofs.SchedP11.
 
 (* in every reachable state (any configuration, any label list: eager or lazy parser, any completion order,
    first attempts and retries alike) a serial attempt that is dispatched is the ONLY dispatched attempt *)
@@ -28,3 +29,24 @@ Proof.
                [(mk_entry 1 None 11 false None None None 2 0, Opened)] [] [] [] (0, 0, 0, 0, 0) 0 Awaiting true).
   split; [discriminate|]. eexists. split; [left; reflexivity|reflexivity].
 Qed.
+
+(* ON THE EMITTED STREAM OF EVERY RUN (any configuration, any label list — eager or lazy parser, any completion order,
+   retries, fail-fast): an attempt of a @serial scenario starts only when no attempt is open, no attempt starts while a
+   serial one is open, and every scenario event emitted while a serial attempt is open is that attempt's own
+   (`iso_walk`, an executable walker over the event list). `ser` says which scenario ids are serial; the only
+   hypothesis is that the features handed over are tagged consistently with it. *)
+Theorem C07_stream_serial_isolation :
+  forall ser c ls s tr, exec c ls = Some (s, tr) -> tagged ser ls -> iso_walk ser tr = true.
+Proof. exact stream_serial_isolation. Qed.
+Print Assumptions C07_stream_serial_isolation.
+
+Example C07_stream_nonvacuous :
+  let f := mk_sfeature 1 [mk_sscen 11 None false None; mk_sscen 12 None true None] 0 2 in
+  let ser := fun x => x =? 12 in
+  let ls := [LFeature f; LParserEnd; LTop; LAttStart (12, 0); LAttEnd (12, 0) false; LTop; LAttStart (11, 0)] in
+  match exec (mk_cfg (Some 2%nat) false) ls with
+  | Some (_, tr) => (iso_walk ser tr, n_started tr)
+  | None => (false, 0%nat)
+  end = (true, 2%nat)
+  /\ iso_walk ser [EvScen 1 None 11 None ScStarted; EvScen 1 None 12 None ScStarted] = false.
+Proof. vm_compute. split; reflexivity. Qed.
